@@ -1,5 +1,5 @@
 """C15  Options resolve per field: run time over benchmark over innermost group."""
-from lib.facts import norm, place_fields, direct_place
+from lib.facts import norm, place_fields, direct_place, nophi
 from lib import tables
 
 EXPLANATION = (
@@ -556,7 +556,7 @@ def r15_6(ctx, prog, crate):
         for c in b.live_calls():
             if c.callee.endswith(("::push", "::first_mut", "::clear", "::insert")):
                 srcs = b.prov.op_src(c.args[0])
-                ctx.check(any(s.kind == "call" and s.b == im[0].bb for s in srcs), "R15.6", ["set_counter", "writes-own-slot", c.callee.rsplit("::", 1)[-1]],
+                ctx.check(any(s.kind == "call" and s.b == im[0].bb for s in srcs) and nophi(srcs), "R15.6", ["set_counter", "writes-own-slot", c.callee.rsplit("::", 1)[-1]],
                           "`%s` is applied to something other than the selected slot" % c.callee, c.line())
             ctx.check(not c.callee.endswith("::clear"), "R15.6", ["set_counter", "no-clear"], "set_counter clears", c.line())
     m = prog.body("counter::collection::CounterCollection::info_mut", crate)
